@@ -123,8 +123,8 @@ fn doc_json(d: &Value) -> Value {
 }
 
 /// fields: [[key, kind, value]...] in document order; kind "str" (byte
-/// array), "strs" (array of byte arrays, `{"null":true}` = null entry),
-/// "num", "null"
+/// array), "strs" (array of 0/1-element arrays: `[]` = null entry,
+/// `[bytes]` = string), "num", "null" (value ignored)
 fn write_doc(fields: &Value) -> String {
   let esc = |bytes: &Value| -> String {
     let st = String::from_utf8_lossy(&crate::build::bytes_of(bytes)).to_string();
@@ -153,7 +153,14 @@ fn write_doc(fields: &Value) -> String {
       "strs" => {
         let items: Vec<String> = f[2]
           .as_array()
-          .map(|a| a.iter().map(|x| if x.is_object() { "null".to_string() } else { esc(x) }).collect())
+          .map(|a| {
+            a.iter()
+              .map(|x| match crate::build::opt(x) {
+                Some(bytes) => esc(bytes),
+                None => "null".to_string(),
+              })
+              .collect()
+          })
           .unwrap_or_default();
         format!("[{}]", items.join(","))
       }
